@@ -1,3 +1,4 @@
+#![allow(dead_code, unused_mut, unused_variables)]
 //! Shared plumbing of the minidump-writer model-checking harness: evidence, replays,
 //! known findings, exit codes, enumeration helpers and the independent oracles.
 //! This crate deliberately does NOT depend on minidump-writer.
